@@ -216,12 +216,14 @@ pub struct ArrayValue {
 impl ArrayValue {
     fn slice(&mut self, left: Option<usize>, right: Option<usize>) {
         if let Some(items) = self.items.as_mut() {
+            // bounds come from the user: a start behind the end, or an end before the start,
+            // select nothing, they must not panic
             if let Some(left) = left {
-                items.drain(..left);
+                items.drain(..left.min(items.len()));
             }
 
             if let Some(right) = right {
-                let remove_range = right - left.unwrap_or_default()..;
+                let remove_range = right.saturating_sub(left.unwrap_or_default())..;
                 if remove_range.start < items.len() {
                     items.drain(remove_range);
                 };
@@ -305,11 +307,13 @@ impl PointerValue {
 
         self.value.and_then(|ptr| {
             let left = left.unwrap_or_default();
-            let base_addr = ptr as usize + deref_size * left;
+            // user supplied bounds: an inverted range or a size that does not fit selects nothing
+            let count = right.checked_sub(left)?;
+            let base_addr = (ptr as usize).checked_add(deref_size.checked_mul(left)?)?;
             let raw_data = weak_error!(debugger::read_memory_by_pid(
                 pcx.evcx.ecx.pid_on_focus(),
                 base_addr,
-                deref_size * (right - left)
+                deref_size.checked_mul(count)?
             ))?;
             let raw_data = bytes::Bytes::from(raw_data);
 
